@@ -9,6 +9,10 @@ Open Scope N_scope.
 
 (** each wrapper / pattern arm forwards to the std method of the SAME name with its arguments in order, and adopts every result *)
 Definition wrap_ok (w : wentry) : bool := String.eqb (w_hip w) (w_std w) && w_args_ok w && w_adopts w.
+(** the case conversions and the UTF-16 decoders are std's results converted with From<String> (no logic of their own) *)
+Theorem C11_conversions_delegate : forallb snd conv_table = true /\ List.length conv_table = 4%nat.
+Proof. split; vm_compute; reflexivity. Qed.
+
 Theorem C11_table : forallb wrap_ok wrap_table = true /\ adopt_str_ok = true /\ adopt_indexed_ok = true /\ iter_forward_ok = true /\ iter_backward_ok = true.
 Proof. repeat split; vm_compute; reflexivity. Qed.
 
